@@ -228,6 +228,21 @@ func newEnv(k *Case) (*Env, error) {
 		&provisioner.ACME{Type: "ACME", Name: "acme", Options: &provisioner.Options{Webhooks: whs},
 			Challenges: []provisioner.ACMEChallenge{provisioner.HTTP_01}},
 	}
+	if k.Op == "sshsignk8s" { // a provisioner type whose tokens are reusable by design (no token record): Kubernetes service accounts
+		k8sKey, err := ecdsa.GenerateKey(elliptic.P256(), rand.Reader)
+		if err != nil {
+			e.Close()
+			return nil, err
+		}
+		der, err := x509.MarshalPKIXPublicKey(k8sKey.Public())
+		if err != nil {
+			e.Close()
+			return nil, err
+		}
+		provs = append(provs, &provisioner.K8sSA{Type: "K8sSA", Name: provisioner.K8sSAName, Claims: &provisioner.Claims{EnableSSHCA: &yes},
+			PubKeys: pem.EncodeToMemory(&pem.Block{Type: "PUBLIC KEY", Bytes: der}), Options: &provisioner.Options{Webhooks: whs}})
+		e.extra["k8skey"] = k8sKey
+	}
 	if k.Op == "signx5c" { // a less used provisioner type: tokens signed by a certificate that chains to a configured root
 		provs = append(provs, &provisioner.X5C{Type: "X5C", Name: "x5c", Options: &provisioner.Options{Webhooks: whs},
 			Roots: pem.EncodeToMemory(&pem.Block{Type: "CERTIFICATE", Bytes: mca.Root.Raw})})
@@ -572,6 +587,33 @@ func (e *Env) prepare(k *Case) (*httpReq, error) {
 		}
 		body.CsrPEM, body.OTT = api.NewCertificateRequest(csr), tok
 		return &httpReq{h: api.Sign, path: "/1.0/sign", body: body}, nil
+
+	case "sshsignk8s":
+		k8sKey := e.extra["k8skey"].(*ecdsa.PrivateKey)
+		sig, err := jose.NewSigner(jose.SigningKey{Algorithm: jose.ES256, Key: k8sKey}, new(jose.SignerOptions).WithType("JWT"))
+		if err != nil {
+			return nil, err
+		}
+		const host = "host.verif.test"
+		tok, err := jose.Signed(sig).Claims(map[string]any{"iss": "kubernetes/serviceaccount", "sub": "system:serviceaccount:verif:" + host,
+			"kubernetes.io/serviceaccount/namespace": "verif", "kubernetes.io/serviceaccount/secret.name": "verif-token",
+			"kubernetes.io/serviceaccount/service-account.name": host, "kubernetes.io/serviceaccount/service-account.uid": "uid-1"}).CompactSerialize()
+		if err != nil {
+			return nil, err
+		}
+		priv, err := ecdsa.GenerateKey(elliptic.P256(), rand.Reader)
+		if err != nil {
+			return nil, err
+		}
+		pub, err := ssh.NewPublicKey(priv.Public())
+		if err != nil {
+			return nil, err
+		}
+		body := &api.SSHSignRequest{PublicKey: pub.Marshal(), CertType: "host", KeyID: host, Principals: []string{host}, OTT: tok}
+		if k.Chk == 4 { // validity beyond the maximum, found after the certificate was made
+			body.ValidBefore = api.NewTimeDuration(time.Now().Add(100000 * time.Hour))
+		}
+		return &httpReq{h: api.SSHSign, path: "/1.0/ssh/sign", body: body}, nil
 
 	case "signx5c":
 		mca := e.extra["mca"].(*minica.CA)
